@@ -49,6 +49,52 @@ class Plain(State):
     inner: Inner = Inner()
 
 
+class Upd(State):
+    n: int = 1
+    r: int | float = 1
+    seq: Sequence[int] = (1, 2)
+    name: str = "a"
+    flag: bool = True
+
+
+def strict(v):
+    """value with the types of everything in it (1 == 1.0 == True must not be confused)"""
+    if isinstance(v, (tuple, list)):
+        return (type(v).__name__, tuple(strict(x) for x in v))
+    return (type(v).__name__, v)
+
+
+def updated_sweep():
+    """updated(k=v) must be exactly: validate v against k's annotation, replace k, keep the rest -
+    i.e. the same as constructing the class from the old attributes with k replaced, for *every* v,
+    including replacements that compare equal to the value already held."""
+    out = []
+    pool = [1, 1.0, True, 2, 0, False, "a", "b", (1, 2), (1.0, 2.0), [1, 2], [True, 2], (), None]
+    for base in (Upd(), Upd(n=0, r=0.0, seq=[], name="", flag=False)):
+        for k in ("n", "r", "seq", "name", "flag"):
+            for v in pool:
+                try:
+                    want = ("ok", Upd(**{**vars(base), k: v}))
+                except Exception:  # noqa
+                    want = ("rejected", None)
+                before = {a: strict(getattr(base, a)) for a in vars(base)}
+                try:
+                    got = ("ok", base.updated(**{k: v}))
+                except Exception:  # noqa
+                    got = ("rejected", None)
+                if {a: strict(getattr(base, a)) for a in vars(base)} != before:
+                    out.append(f"updated({k}={v!r}) changed the original instance")
+                if want[0] != got[0]:
+                    out.append(f"{base}.updated({k}={v!r}) was {got[0]} but constructing with that value is {want[0]}")
+                elif want[0] == "ok":
+                    for a in vars(base):
+                        if strict(getattr(got[1], a)) != strict(getattr(want[1], a)):
+                            out.append(f"{base}.updated({k}={v!r}): attribute {a} is {getattr(got[1], a)!r}, expected {getattr(want[1], a)!r}")
+                if len(out) > 3:
+                    return out
+    return out
+
+
 def problems():
     out = []
     lst, stt, dct = [1, 2], {"a"}, {"k": 1}
@@ -90,6 +136,7 @@ def problems():
         pass
     if s.n != 5:
         out.append("a failed update changed the original")
+    out += updated_sweep()
     p = Plain(n=2, seq=[1], inner=Inner(x=3))
     for name, f in (("copy", copy.copy), ("deepcopy", copy.deepcopy)):
         try:
